@@ -268,6 +268,8 @@ def to_jsonable(v):
         return bool(v)
     if isinstance(v, complex):
         return {'__complex__': [v.real, v.imag]}
+    if isinstance(v, slice):
+        return {'__slice__': [v.start, v.stop, v.step]}
     if isinstance(v, dict):
         return {k: to_jsonable(x) for k, x in v.items()}
     if isinstance(v, (list, tuple)):
@@ -290,6 +292,8 @@ def from_jsonable(v):
         return np.array(v['__ndarray__'], dtype=dt if dt != 'object' else None)
     if isinstance(v, dict) and '__complex__' in v:
         return complex(*v['__complex__'])
+    if isinstance(v, dict) and '__slice__' in v:
+        return slice(*v['__slice__'])
     if isinstance(v, dict):
         return {k: from_jsonable(x) for k, x in v.items()}
     if isinstance(v, list):
